@@ -12,10 +12,14 @@ def model_check(ctx, prop):
     q = ctx.quick()
     runs = []
     if prop in ("C10", "C11", "C17", "C18"):
-        runs += [("MC_Api", "MC_Api_en_quick.cfg" if q else "MC_Api_en.cfg"), ("MC_Api", "MC_Api_fr_quick.cfg" if q else "MC_Api_fr.cfg")]
+        if q:
+            extra = ["es", "nl", "it", "pt"][ctx.seed % 4]
+            runs += [("MC_Api", "MC_Api_%s_quick.cfg" % l) for l in ("en", "fr", "de", extra)]
+        else:
+            runs += [("MC_Api", "MC_Api_%s.cfg" % l) for l in LANGS]
         if prop in ("C11", "C17"):
             runs += [("MC_Tokenizer", "MC_Tokenizer.cfg")]
-        vlib.model_check_many(ctx, runs, workers_each=6 if q else 7, heap="4g")
+        vlib.model_check_many(ctx, runs, workers_each=3 if q else 4, heap="4g")
         return
     if prop in ("C02", "C03"):
         runs += [("MC_Tokenizer", "MC_Tokenizer.cfg")]
